@@ -878,6 +878,21 @@ static Boolean ChkIndexA(tAdrParts const* pAdrParts) {
     return ChkRange(Index, -32768, 65535);
 }
 
+/* RRUX: rotate right unsigned = RRCX with the carry taken as zero (ZC bit of
+   the extension word); defined for register mode only */
+
+static void DecodeRRUX(Word Index) {
+    tAdrParts AdrParts;
+
+    PCDist = 4;
+    if (ChkArgCnt(1, 1)
+        && DecodeAdr(&ArgStr[1], eExtModeYes, MModeReg, False, &AdrParts)) {
+        MultPrefix |= 0x0100;
+        DecodeOneOpX(Index);
+        MultPrefix = 0;
+    }
+}
+
 static void DecodeMOVA(Word Code) {
     tAdrParts AdrParts;
 
@@ -1434,6 +1449,9 @@ static void InitFields(void) {
     OneOpOrders = (OneOpOrder*)malloc(sizeof(OneOpOrder) * OneOpCount);
     InstrZ      = 0;
     AddOneOp("RRC", True, True, 0x1000);
+    if (MomCPU >= CPUMSP430X) {
+        AddInstTable(InstTable, "RRUX", InstrZ - 1, DecodeRRUX);
+    }
     AddOneOp("RRA", True, True, 0x1100);
     AddOneOp("PUSH", True, True, 0x1200);
     AddOneOp("SWPB", False, True, 0x1080);
@@ -1441,8 +1459,6 @@ static void InitFields(void) {
     AddOneOp("SXT", False, True, 0x1180);
 
     if (MomCPU >= CPUMSP430X) {
-        /* what about  RRUX? */
-
         AddInstTable(InstTable, "MOVA", 0x0000, DecodeMOVA);
         AddInstTable(InstTable, "ADDA", 0x00a0, DecodeADDA_SUBA_CMPA);
         AddInstTable(InstTable, "CMPA", 0x0090, DecodeADDA_SUBA_CMPA);
